@@ -749,3 +749,49 @@ Proof.
     + intros _. pose proof (tostream_starts_leaf c0) as St.
       cbn [ts_obj_go]. destruct (tostream c0) as [|[p x | p] r]; try contradiction; exact I.
 Qed.
+
+(* ------------------------------------------------------------------ [paths] = [path(..)] without the root *)
+
+Lemma pdd_arr_paths : forall l i, Forall (fun c => path_dotdot c = [] :: paths c) l ->
+  pdd_arr_go path_dotdot i l = paths_arr_go paths i l.
+Proof.
+  induction l as [|c r IH]; intros i F; [reflexivity|].
+  apply Forall_cons_iff in F. destruct F as [Hc F]. cbn [pdd_arr_go paths_arr_go].
+  rewrite Hc, (IH _ F). reflexivity.
+Qed.
+
+Lemma pdd_obj_paths : forall m, Forall (fun kv => path_dotdot (snd kv) = [] :: paths (snd kv)) m ->
+  pdd_obj_go path_dotdot m = paths_obj_go paths m.
+Proof.
+  induction m as [|[k c] r IH]; intros F; [reflexivity|].
+  apply Forall_cons_iff in F. destruct F as [Hc F]. cbn [snd] in Hc. cbn [pdd_obj_go paths_obj_go].
+  rewrite Hc, (IH F). reflexivity.
+Qed.
+
+(* path(..) is the root followed by paths, in the same order, for EVERY value *)
+Lemma path_dotdot_paths : forall v, path_dotdot v = [] :: paths v.
+Proof.
+  induction v as [| | | | | |l IH|m IH] using jv_ind'; try reflexivity.
+  - cbn [path_dotdot paths]. f_equal. apply pdd_arr_paths. exact IH.
+  - cbn [path_dotdot paths]. f_equal. apply pdd_obj_paths. exact IH.
+Qed.
+
+Lemma paths_nonroot : forall v p, In p (paths v) -> is_root p = false.
+Proof.
+  intros v p H. destruct v; try contradiction.
+  - cbn [paths] in H. apply in_paths_arr in H. destruct H as [n [c [_ [-> | [q [_ ->]]]]]]; reflexivity.
+  - cbn [paths] in H. apply in_paths_obj in H. destruct H as [k [c [_ [-> | [q [_ ->]]]]]]; reflexivity.
+Qed.
+
+(* def paths: path(..) | select(. != [])  enumerates exactly [paths] *)
+Lemma paths_jq_paths : forall v, paths_jq v = paths v.
+Proof.
+  intros v. unfold paths_jq. rewrite path_dotdot_paths. cbn [filter is_root negb].
+  assert (G : forall l, (forall p, In p l -> is_root p = false) -> filter (fun p => negb (is_root p)) l = l).
+  { induction l as [|p l IH]; intros H; [reflexivity|]. cbn [filter].
+    rewrite (H p (or_introl eq_refl)). cbn [negb]. f_equal. apply IH. intros q Hq. apply H. right. exact Hq. }
+  apply G. apply paths_nonroot.
+Qed.
+
+Lemma paths_jq_tl : forall v, paths_jq v = tl (path_dotdot v).
+Proof. intros v. rewrite paths_jq_paths, path_dotdot_paths. reflexivity. Qed.
